@@ -221,13 +221,23 @@ def c_effective_potential(chk):
         "allSecondDerivatives": (lambda v: list(as_array(v[0]).reshape(-1)) + list(as_array(v[1]).reshape(-1)) + [scalar(as_array(v[2]))],
                                  [exact2[0][0], exact2[0][1], exact2[1][0], exact2[1][1], exact2[2][0], exact2[2][1], exact2[2][2]]),
     }
-    for meth, (flat, want) in cases.items():
-        def mk(it):
+    for meth, (flat, want) in list(cases.items()) + [("derivField.integer-fields", cases["derivField"])]:
+        int_fields = meth.endswith("integer-fields")
+        meth = meth.split(".")[0]
+
+        def mk(it, int_fields=int_fields):
             for c in pre + ([Gt(T, 0)] if meth == "derivT" else []):
                 it.assume(c)
-            return make(), [as_array([[f0, f1]]), as_array(T) if meth == "derivT" else as_array([T])], {}, {}
-        paths = chk.summarize("effectivePotential", f"EffectivePotential.{meth}", mk, registry=reg)
+            farr = as_array([[f0, f1]])
+            if int_fields:
+                # the field values happen to be whole numbers held in an INTEGER array (e.g. Fields([110, 130])): the temperature must
+                # not be truncated when fields and temperature are packed into one array
+                it.int_arrays[id(farr)] = farr
+            return make(), [farr, as_array(T) if meth == "derivT" else as_array([T])], {}, {}
+        paths = chk.summarize("effectivePotential", f"EffectivePotential.{meth}", mk, registry=reg, record=not int_fields)
         rets = sel(paths)
+        if int_fields:
+            meth = meth + ".integer-fields"
         if not rets or len(rets) != len(paths):
             chk.undecided.append(f"EffectivePotential.{meth}: {len(paths) - len(rets)} non-returning paths of {len(paths)}")
         for i, p in enumerate(rets):
